@@ -555,7 +555,14 @@ def run_harness(chk, label, pkg, files, run, env=None, timeout=900, race=False, 
             e2.pop("VERIF_SKIP", None)
             rc2, out2, recs2 = go_test(pkg, files, run, env=e2, timeout=timeout, race=race, name=label + "-only")
             exc2 = _crash_excerpt(out2)
-            if not any(r.get("k") == "done" for r in recs2) and exc2:
+            viols2 = [r for r in recs2 if r.get("k") == "viol"]
+            if any(r.get("k") == "done" for r in recs2) and viols2:
+                # alone it does not kill the process but is judged a violation: that explains the crash under accumulated load
+                for r in viols2:
+                    chk.violation(r["key"], r.get("desc", ""), r.get("replay"))
+                skip.append(idx)
+                found = True
+            elif not any(r.get("k") == "done" for r in recs2) and exc2:
                 case = [r for r in recs2 if r.get("k") == "case"]
                 chk.violation(crash_key, "process crashed: " + exc2.splitlines()[0],
                               {"harness": label, "case_index": idx, "case": case[:1], "input": env.get("VERIF_IN"), "crash": exc2})
@@ -563,7 +570,10 @@ def run_harness(chk, label, pkg, files, run, env=None, timeout=900, race=False, 
                 found = True
         if not found:
             raise InfraError("harness %s crashed but no single case reproduces it\n%s" % (label, exc))
-    raise InfraError("harness %s: too many crashing cases" % label)
+    # every round found another crashing case: the class of defect is established, the remaining inputs were not all examined
+    chk.notes.append("harness %s: stopped after %d process crashes, remaining inputs not examined" % (label, len(skip)))
+    chk.cov["impl_runs"].append({"harness": label, "stopped_after_crashes": len(skip)})
+    return {"stopped_after_crashes": len(skip)}
 
 
 def main_wrapper(fn, pid, tier):
